@@ -179,6 +179,38 @@ func extractRangePreds() map[string][]string {
 	return out
 }
 
+// parse/parse.go: the integer constants that bound the parser's recursion (a constant that is gone, or is no
+// integer literal, is a failed extraction)
+func extractParseLimits() map[string]string {
+	_, f := parseFile("parse/parse.go")
+	out := map[string]string{}
+	if f == nil {
+		return out
+	}
+	for _, d := range f.Decls {
+		gd, ok := d.(*ast.GenDecl)
+		if !ok || gd.Tok != token.CONST {
+			continue
+		}
+		for _, sp := range gd.Specs {
+			vs := sp.(*ast.ValueSpec)
+			for i, nm := range vs.Names {
+				if (nm.Name == "maxStmtDepth" || nm.Name == "maxArgPieces") && i < len(vs.Values) {
+					if lit, ok := vs.Values[i].(*ast.BasicLit); ok && lit.Kind == token.INT {
+						out[nm.Name] = lit.Value
+					}
+				}
+			}
+		}
+	}
+	for _, want := range []string{"maxStmtDepth", "maxArgPieces"} {
+		if _, ok := out[want]; !ok {
+			fail("parse.go: constant " + want + " not found (the parser's recursion has no bound)")
+		}
+	}
+	return out
+}
+
 // checkModule: the section of each case list (by order of appearance: header, linkage, meta, revision)
 func extractModuleSections() [][]string {
 	_, f := parseFile("parse/module.go")
@@ -256,6 +288,15 @@ func genParse() {
 			sep = ""
 		}
 		fmt.Fprintf(&b, "  (%s, %s)%s\n", leanStr(k), leanStrList(rp[k]), sep)
+	}
+	b.WriteString("]\n\n")
+	pl := extractParseLimits()
+	b.WriteString("/-- parse/parse.go: the bounds of the statement parser's two recursions -/\ndef parseLimits : List (String × Nat) := [")
+	for i, k := range sortedKeys(pl) {
+		if i > 0 {
+			b.WriteString(", ")
+		}
+		fmt.Fprintf(&b, "(%s, %s)", leanStr(k), pl[k])
 	}
 	b.WriteString("]\n\n")
 	ms := extractModuleSections()
